@@ -473,23 +473,28 @@ def r04d(model, ctx):
               "a flip-flop must be a $dff iff arst is constant 0, otherwise an $adff with ARST=arst, ARST_POLARITY=True "
               "and ARST_VALUE=Const(init, width)", f"{RTLIL}:{ff.lineno}")
     # _ir: FlipFlop creation
-    fd = model.func_expanded(f"{IR}::NetlistEmitter.emit_drivers")
+    fd = model.func_view(f"{IR}::NetlistEmitter.emit_drivers", depth=3)
     ffc = [n for n in ast.walk(fd) if isinstance(n, ast.Call) and unparse(n.func) == "_nir.FlipFlop"]
     need(len(ffc) == 1, "emit_drivers: FlipFlop construction not found")
     kw = {k.arg: unparse(k.value) for k in ffc[0].keywords}
+    from ..engine.bitalg import same_value
+    kwn = {k.arg: k.value for k in ffc[0].keywords}
     ok = kw.get("clk_edge") == "driver.domain.clk_edge" and kw.get("clk") == "clk" and kw.get("arst") == "arst" and \
-        kw.get("init") == "driver.signal.init >> chunk_start & chunk_mask" and kw.get("data") == "value"
+        "init" in kwn and same_value(kwn["init"], "driver.signal.init >> chunk_start & (1 << chunk_end - chunk_start) - 1") and \
+        kw.get("data") == "value"
     ctx.check(ok, R, "emit_drivers:FlipFlop", "clk/clk_edge from the driver's domain; init = chunk of signal.init",
               f"FlipFlop must take clk_edge from the domain and init=(signal.init >> chunk_start) & chunk_mask; found {kw}",
               f"{IR}:{ffc[0].lineno}")
     # init is also what the reset assignment loads
-    okr = any(unparse(s) == "init = _nir.Value.from_const(driver.signal.init, len(driver.signal))" for s in ast.walk(fd))
+    okr = any(isinstance(n, ast.Call) and unparse(n.func) == "_nir.Assignment" and
+              {k.arg: unparse(k.value) for k in n.keywords}.get("value") == "_nir.Value.from_const(driver.signal.init, len(driver.signal))"
+              and {k.arg: unparse(k.value) for k in n.keywords}.get("start") == "0" for n in ast.walk(fd))
     ctx.check(okr, R, "emit_drivers:reset-value", "sync reset loads Const(signal.init)",
               "the synchronous reset assignment must load signal.init over the whole signal", f"{IR}:{fd.lineno}")
     # write-enable replication agreement (_ir vs _pyrtl)
     fwv = model.func_view(f"{IR}::NetlistEmitter.emit_write_port")
-    ok = any(unparse(s) == "en = _nir.Value([en[bit // port._granularity] for bit in range(len(port._data))])"
-             for s in ast.walk(fwv))
+    ok = any(pmatch("_nir.Value([en[bit // port._granularity] for bit in range(len(port._data))])", n) is not None
+             for n in ast.walk(fwv))
     fw = model.func_expanded(f"{IR}::NetlistEmitter.emit_write_port")
     fc = model.func_view(f"{PYRTL}::_FragmentCompiler.__call__", depth=3)
     ok2 = any(pmatch("rhs(Cat((bit.replicate(port._granularity) for bit in port._en)))", n) is not None
